@@ -24,6 +24,8 @@ func main() {
 		runCsum(*n)
 	case "auth":
 		runAuth(*n)
+	case "codec":
+		runCodec(*n)
 	default:
 		vt.Fatal("unknown mode %q", *mode)
 	}
